@@ -98,6 +98,13 @@ def run(ctx):
                                          G=(10 if b % 3 == 2 else rng.choice([5, 10])), vmax=9,
                                          ncell=rng.randint(2, 4 if quick else 5),
                                          cfg={'fnum': 1, 'fden': 1, 'drop': None, 'flatten': False})
+            if b % 4 == 3:
+                # few leaves, many cells: several cells share an assignment (levels removed below)
+                for _ in range(50):
+                    base = maptrace.gen_scenario(rng, max_levels=3, max_leaves=3, min_leaves=2, G=10, vmax=9, ncell=8,
+                                                 cfg={'fnum': 1, 'fden': 1, 'drop': None, 'flatten': False, 'K': 2})
+                    if len(base['tree']['hier']) >= 2 and len(base['tree']['nodes'][0]) > 1:
+                        break
             if len(base['tree']['nodes'][0]) == 1:
                 base['tree'] = maptrace.random_tree(rng, 1, 5, 2)
                 base['means'] = {str(l): [rng.randint(0, 9) for _ in range(base['G'])]
@@ -126,6 +133,14 @@ def run(ctx):
                 base['Qf'] = Qf
                 base['cfg']['chunk'] = 10        # base: all cells in one batch
                 base['cfg']['P'] = 1
+            if b % 4 == 3 and len(base['tree']['hier']) >= 2:
+                # removed levels are inferred per cell from its own finer assignment
+                if b % 8 == 3:
+                    base['cfg']['flatten'] = True
+                else:
+                    base['cfg']['drop'] = rng.choice(base['tree']['hier'][:-1])
+                if len(base['tree']['nodes'][0]) == 1 and base['cfg'].get('drop') == base['tree']['hier'][0]:
+                    pass
             scheme = rng.choice(['structural', 'reversed', 'shared'])
             items.append((base, scheme, {'want_trace': True}))
             meta.append(('base', b, None, None))
@@ -194,6 +209,42 @@ def run(ctx):
             ctx.sample({'transformation': p['t'], 'ids': p['ids'], 'base_first': p['base'][:1],
                         'image_first': p['image'][:1]})
         ctx.part('pairs', compared=len(pairs), rejected=rej, undetermined_cells=und_total, bases=nbase)
+    if ctx.only in (None, 'big'):
+        # more than 10 000 cells in one batch against the same cells in batches of 3 000
+        tj = {'hier': [1, 2], 'keys': [1, 2], 'nodes': [[1, 2, 3], [1, 2, 3, 4, 5, 6]],
+              'kids': [[[1, [1, 2]], [2, [3, 4]], [3, [5, 6]]], [[n, []] for n in range(1, 7)]],
+              'cells': [[n, []] for n in range(1, 7)]}
+        nb = 10400 + rng.randint(1, 300)
+        big = maptrace.gen_scenario(rng, tree=tj, G=6, vmax=9, ncell=4,
+                                    cfg={'fnum': 1, 'fden': 1, 'drop': None, 'flatten': False, 'B': 2, 'K': 1,
+                                         'chunk': 20000, 'P': 1, 'enc': 'dense', 'minm': 1})
+        big['qgenes'] = [1, 2, 3, 4, 5, 6]
+        big['markers'] = {'0/0': [1, 2, 3, 4, 5, 6], '1/1': [1, 2, 3], '1/2': [3, 4, 5], '1/3': [2, 4, 6]}
+        big['cells'] = list(range(1, nb + 1))
+        big['Q'] = [[rng.randint(0, 9) for _ in range(6)] for _ in range(nb)]
+        small = copy.deepcopy(big)
+        small['cfg']['chunk'] = 3000
+        rs = relations.run_many(ctx, [(big, 'structural', {}), (small, 'structural', {})], jobs=2)
+        ctx.count({'big': nb}, nontrivial=True)
+        if not rs[0]['ok'] or not rs[1]['ok']:
+            ctx.report('pair:run-failed', f'large batch run failed: {rs[0]["error"]} / {rs[1]["error"]}', {'big': nb})
+        else:
+            by = [{x['id']: x for x in r['recs']} for r in rs]
+            pairs = []
+            ids_all = big['cells']
+            for k in range(0, nb, 400):
+                ids = ids_all[k:k + 400]
+                pairs.append({'rel': 'join_close', 'tree': tj, 'base': [by[0][c] for c in ids if c in by[0]],
+                              'image': [by[1][c] for c in ids if c in by[1]], 'levels': tj['hier'], 'ids': ids,
+                              't': ('batch-size', k)})
+            rej = 0
+            for p, v in relations.decide(ctx, pairs, 'Relations_Trace_c06_big'):
+                if not v['accepted']:
+                    rej += 1
+                    if rej <= 2:
+                        ctx.report(f'clause:{v["inv"]}:batch-size', f'{relations.CL.get(v["inv"])}; {nb} cells in one '
+                                   f'batch vs batches of 3000, cells {p["ids"][0]}..{p["ids"][-1]}', {'big': nb})
+            ctx.part('big', cells=nb, groups=len(pairs), rejected=rej)
 
 
 def replay(ctx, path):
